@@ -81,6 +81,10 @@ class Def:
     def __init__(self, mod, cls, node):
         self.mod, self.cls, self.node, self.name = mod, cls, node, node.name
         decs = [ast.unparse(d) for d in node.decorator_list]
+        for dname in decs:
+            if dname not in ("property", "classproperty", "staticmethod", "classmethod") and not dname.endswith(".setter"):
+                # e.g. functools.cached_property / lru_cache: hidden state the abstraction does not see
+                refuse(node, f"{mod}.{cls}.{node.name}: decorator {dname} is not understood by the read-only analysis")
         self.is_property = any(d in ("property", "classproperty") for d in decs)
         self.is_setter = any(d.endswith(".setter") for d in decs)
         self.is_static = "staticmethod" in decs
